@@ -124,7 +124,7 @@ class FnView:
             if par is not None:
                 self.parent[id(n)] = par
                 self.key_in_parent[id(n)] = key
-            for k, c in children(n):
+            for k, c in reversed(list(children(n))):
                 stack.append((c, n, k))
         # parameters
         for i, p in enumerate(self.fn.get("params", [])):
